@@ -1,5 +1,6 @@
 import Restli.Proofs.NoPanic
 import Restli.Proofs.Fuel
+import Restli.Proofs.AnyReader
 /-! # C04 — decoder robustness (ROR2 readers and generated unmarshalers)
 
 The reader model transliterates every Go index expression `u.data[u.pos]` / slice as a match
@@ -43,6 +44,25 @@ theorem c04_ror2_never_out_of_fuel (c : RCfg) (ty : Ty) (data : Bytes) :
 six reader functions, whenever the fuel is at least `2·remaining + 5` -/
 theorem c04_ror2_reader_functions_consume (c : RCfg) (fuel : Nat) : FuelOK c fuel :=
   fuelOK c fuel
+/-- **the untyped-value reader** (`NewInterfaceReaderWithExcludedFields` over any tree of Go maps,
+slices, scalars, nils and values of unsupported kinds) driving the generated unmarshalers never
+takes a panic branch: any value, any schema, any type, any exclusion spec and ignore count. The
+model is structurally recursive over the value, so it also terminates on every input. -/
+theorem c04_untyped_reader_never_panics (env : Env) (tr : Tracker) (ty : Ty) (v : AnyVal) :
+    unmarshalAny env tr ty v ≠ .panic :=
+  unmarshalAny_ne_panic env tr ty v
+
+/-- **the JSON reader on a parsed document**: no document the strict parser accepts makes the
+generated unmarshalers take a panic branch (what the lexer does with the others is observed) -/
+theorem c04_json_reader_never_panics (env : Env) (tr : Tracker) (ty : Ty) (data : Bytes) :
+    unmarshalJson { env := env, tracker := tr } ty data ≠ some .panic :=
+  unmarshalJson_ne_panic _ rfl ty data
+
+/-- the tree reader with any leaf semantics that does not panic itself -/
+theorem c04_tree_reader_never_panics (c : TCfg) (hs : SemNoPanic c.sem) (t : Json.JVal) (top : Bool)
+    (scope : List Seg) (ty : Ty) : treeRead c top scope ty t ≠ .panic :=
+  treeRead_ne_panic c hs t top scope ty
+
 
 /-- the one way `genericMatches` *can* panic: an empty path against a non-empty spec (Go indexes
 `path[0]`); no caller does this -/
@@ -54,5 +74,13 @@ def cfg0 : RCfg := { env := [("R", .record [] [{ name := [97], ty := .prim .i32,
 example : (match unmarshalRor2 cfg0 (.ref "R") [40] with | .err .syntax => true | _ => false) = true := by rfl
 example : (match unmarshalRor2 cfg0 (.ref "R") [40, 97, 58, 49, 44] with | .err .syntax => true | _ => false) = true := by rfl
 example : (match unmarshalRor2 cfg0 (.ref "R") [40, 97, 58, 49, 41] with | .ok (.record [([97], .i32 1)]) _ => true | _ => false) = true := by rfl
+
+/-- untyped values of the wrong shape are answered with an error (or the value, where Go converts) -/
+example : (match unmarshalAny [("R", .record [] [⟨[97], .prim .i32, false, none⟩])] { excl := .empty, ignore := 0 } (.ref "R") .nil with
+  | .err .syntax => true | _ => false) = true := by rfl
+example : (match unmarshalAny [("R", .record [] [⟨[97], .prim .i32, false, none⟩])] { excl := .empty, ignore := 0 } (.ref "R")
+    (.obj [([97], .arr [.nil])]) with | .err .syntax => true | _ => false) = true := by rfl
+example : (match unmarshalAny [("R", .record [] [⟨[97], .prim .i32, false, none⟩])] { excl := .empty, ignore := 0 } (.ref "R")
+    (.obj [([97], .str [52, 50]), ([98], .other)]) with | .ok (.record [([97], .i32 42)]) _ => true | _ => false) = true := by decide
 
 end Restli.Codec
